@@ -280,4 +280,4 @@ func shortStrings(alphabet []string, n int, f func(string)) {
 	rec("", n)
 }
 
-var shortAlphabet = []string{"a", " ", "\n", "\t", "*", "_", "`", "[", "]", "(", ")", "<", ">", "#", "-", "\\", "&", "!", ":", "|"}
+var shortAlphabet = []string{"a", " ", "\n", "\t", "*", "_", "`", "[", "]", "(", ")", "<", ">", "#", "-", "\\", "&", "!", ":", "|", "\x80", "\xe3"}
